@@ -59,7 +59,7 @@ def run_with_probes(cls, d, perm, cycles):
 
 def run(ck):
   rng = ck.rng
-  n = 40 if ck.tier == 'quick' else 4000
+  n = 200 if ck.tier == 'quick' else 4000
   maxperm = 6 if ck.tier == 'quick' else 120
   lines, meta = [], []
   for _ in range(n):
